@@ -282,7 +282,29 @@ def monitorC10 (cx : Ctx) : List Finding := Id.run do
                 | none => pure ()
               | _, _ => pure ()
   | [] => pure ()
-  return out.reverse
+  -- per session (a session that panics later is judged at its last successful call): once it treats
+  -- player h as dropped with last frame L, every frame after L in its timeline carries
+  -- (0, Disconnected) for h (whatever L the survivors ended up with)
+  for s in cx.p2p do
+    match cx.sc.calls.toList.reverse.find? fun c => c.sid == s.sid && c.isAdvOk with
+    | none => pure ()
+    | some la =>
+      let cur := (la.snapInt "cur").getD 0
+      for ((disc, lastF), h) in la.status.zipIdx do
+        if !disc then continue
+        match s.players.find? (·.1 == h) with
+        | some (_, 'R', _) =>
+          for (f, sim) in lastSims (cx.simsFor s.sid) do
+            if f < cur && f > lastF then
+              match sim.inputs[h]? with
+              | some (v, ch) =>
+                if !(v == 0 && ch == 'D') then
+                  out := mkF cx "C10" "status-after-cutoff" s.sid sim.lineNo
+                    s!"dropped player {h}: frame {f} (after the last frame {lastF} this session keeps for it) has ({v},{ch}) in the session's final timeline" :: out
+              | none => pure ()
+        | _ => pure ()
+  return (out.reverse.foldl (fun acc f =>
+    if f.clause == "status-after-cutoff" && acc.any (fun g => g.clause == f.clause && g.sid == f.sid) then acc else acc ++ [f]) [])
 
 /-! ### C08 — malformed or foreign packets are discarded -/
 
@@ -352,10 +374,49 @@ def monitorC09 (cx : Ctx) : List Finding := Id.run do
 
 /-! ### C11 — run-time delay changes -/
 
+/-- "Nothing stranded, no session left stuck": a session that has just been given every local
+input and already holds every connected remote player's input for its current frame simulates a
+new frame — at the latest with the call after (the window gate reads the confirmation computed
+before this call's local inputs are registered). Ten such calls in a row without a new frame is a
+session frozen with everything it needs in its buffers. -/
+def monitorStranded (cx : Ctx) : List Finding := Id.run do
+  let mut out : List Finding := []
+  for s in cx.p2p do
+    let locals := (s.players.filter (·.2.1 == 'L')).map (·.1)
+    let remotes := (s.players.filter (·.2.1 == 'R')).map (·.1)
+    let mut prevCur : Int := 0
+    let mut submitted : List Nat := []
+    let mut streak := 0
+    let mut reported := false
+    for c in cx.sc.calls do
+      if c.sid != s.sid || reported then continue
+      match c.call with
+      | ["addin", hs, _] => if c.result == "ok" then submitted := hs.toNat?.getD 1000000 :: submitted
+      | ["adv"] =>
+        let cur := (c.snapInt "cur").getD prevCur
+        let held := remotes.all fun h =>
+          let (disc, lastF) := c.status.getD h (false, -1)
+          disc || lastF ≥ prevCur
+        let fed := locals.all fun h => submitted.contains h
+        if (c.result.startsWith "ok" || c.result == "err PredictionThreshold") && cur == prevCur && held && fed then
+          streak := streak + 1
+          if streak ≥ 10 then
+            out := mkF cx "C11" "stranded" s.sid c.lineNo
+              s!"ten advance_frame calls in a row simulated no new frame at frame {cur} although every local input was submitted and every connected remote player's input for that frame had arrived" :: out
+            reported := true
+        else streak := 0
+        submitted := []
+      | _ => pure ()
+      match c.snapInt "cur" with
+      | some x => prevCur := x
+      | none => pure ()
+  return out.reverse
+
 def monitorC11 (cx : Ctx) : List Finding :=
   monitorPanics cx "C11" ++ (monitorC01 cx).map (fun f => { f with prop := "C11", clause := s!"agree-{f.clause}" })
-  ++ (monitorC06 cx).filterMap fun f =>
-    if f.clause == "replay" then some { f with prop := "C11", clause := "agree-spectator" } else none
+  ++ ((monitorC06 cx).filterMap fun f =>
+    if f.clause == "replay" then some { f with prop := "C11", clause := "agree-spectator" } else none)
+  ++ monitorStranded cx
 
 /-! ### C12 — lifecycle events -/
 
@@ -602,6 +663,64 @@ def monitorC18 (cx : Ctx) : List Finding := Id.run do
           out := mkF cx "C18" "send-queue" s.sid c.lineNo s!"endpoint {e.addr}: {e.sq} messages left in the send queue after {c.call}" :: out
   return (out.reverse.foldl (fun acc f => if acc.any fun g => g.clause == f.clause && g.sid == f.sid then acc else acc ++ [f]) [])
 
+/-! ### grounds for treating a player as disconnected (C04's "connected player", C07, C10) -/
+
+/-- A session may start treating a remote player as disconnected only on grounds: an accepted
+`disconnect_player` call for its address, a `Disconnected` event for its address (which the next
+drain of the event queue must then report), or an input packet from a peer that says so. The verdict
+for a player marked without call or gossip is given by the next drain; without a later drain, or if
+the event queue ever hit its cap, there is none. Independent of the number of peers. -/
+def monitorGrounds (cx : Ctx) (prop : String) : List Finding := Id.run do
+  let mut out : List Finding := []
+  for s in cx.p2p do
+    let players := s.players
+    let mut claimed : List Nat := []
+    let mut manual : List Nat := []
+    let mut evDisc : List Nat := []
+    let mut marked : List Nat := []
+    let mut pending : List (Nat × Nat × Nat) := []
+    let mut capped := false
+    for c in cx.sc.calls do
+      if c.sid != s.sid then continue
+      if c.result == "PANIC" then break
+      if (c.snapInt "evq").getD 0 ≥ (MAX_EVENT_QUEUE_SIZE : Int) then capped := true
+      for (_, m) in c.recv do
+        match m.body with
+        | .input st _ _ _ _ =>
+          for (cs, h) in st.zipIdx do
+            if cs.disconnected then claimed := h :: claimed
+        | _ => pure ()
+      match c.call with
+      | ["disc", hs] =>
+        if c.result == "ok" then
+          match players.find? (·.1 == hs.toNat?.getD 1000000) with
+          | some (_, _, addr) => manual := addr :: manual
+          | none => pure ()
+      | ["events"] =>
+        match words c.result with
+        | ["ev", evs] =>
+          for e in evs.splitOn ";" do
+            match e.splitOn ":" with
+            | ["Disconnected", a] => evDisc := a.toNat?.getD 0 :: evDisc
+            | _ => pure ()
+        | _ => pure ()
+        if !capped then
+          for (h, addr, line) in pending do
+            if !evDisc.contains addr then
+              out := mkF cx prop "unfounded-disconnect" s.sid line
+                s!"player {h} (address {addr}) is treated as disconnected although no disconnect_player call named it, no peer's input packet reported it disconnected, and the next drain of the event queue reports no Disconnected for address {addr}" :: out
+        pending := []
+      | _ => pure ()
+      for ((disc, _), h) in c.status.zipIdx do
+        if disc && !marked.contains h then
+          marked := h :: marked
+          match players.find? (·.1 == h) with
+          | some (_, 'R', addr) =>
+            if !(claimed.contains h || manual.contains addr || evDisc.contains addr) then
+              pending := (h, addr, c.lineNo) :: pending
+          | _ => pure ()
+  return (out.reverse.foldl (fun acc f => if acc.any fun g => g.clause == f.clause && g.sid == f.sid then acc else acc ++ [f]) [])
+
 /-! ### C16 — run-time misuse is refused with the documented error -/
 
 /-- Decided on the trace alone, from the players each session was built with:
@@ -649,17 +768,20 @@ is known to diverge and panic); the other properties quantify over two-peer drop
 def Ctx.multiPeerDrop (cx : Ctx) : Bool := cx.p2p.length ≥ 3 && cx.anyDisconnect
 
 def runMonitor2 (prop : String) (cx : Ctx) : List Finding :=
-  if cx.multiPeerDrop && !["C10", "C12", "C17", "C18", "C16"].contains prop then [] else
+  if cx.multiPeerDrop && !["C10", "C12", "C17", "C18", "C16"].contains prop then
+    -- the one clause about connected players that does not depend on how a drop is resolved
+    (if ["C04", "C07"].contains prop then monitorGrounds cx prop else [])
+  else
   match prop with
   | "C05" => monitorC05 cx
   | "C06" => monitorC06 cx ++ monitorPanics cx "C06"
-  | "C07" => monitorC07 cx ++ (if cx.p2p.length == 2 then monitorPanics cx "C07" else []) ++
+  | "C07" => monitorC07 cx ++ monitorGrounds cx "C07" ++ (if cx.p2p.length == 2 then monitorPanics cx "C07" else []) ++
       -- "spectators of that host see the same"
       ((monitorC06 cx).filterMap fun f =>
         if f.clause == "replay" || f.clause == "status" then some { f with prop := "C07", clause := s!"spectator-{f.clause}" } else none)
   | "C08" => monitorC08 cx
   | "C09" => monitorC09 cx
-  | "C10" => monitorC10 cx
+  | "C10" => monitorC10 cx ++ monitorGrounds cx "C10"
   | "C11" => monitorC11 cx
   | "C12" => monitorC12 cx
   | "C13" => monitorC13 cx
@@ -667,6 +789,7 @@ def runMonitor2 (prop : String) (cx : Ctx) : List Finding :=
   | "C16" => monitorPanics cx "C16" ++ monitorC16 cx
   | "C17" => []
   | "C18" => monitorC18 cx
+  | "C04" => runMonitor "C04" cx ++ monitorGrounds cx "C04"
   | p => runMonitor p cx
 
 end Ggrs.Driver
